@@ -88,6 +88,22 @@ StaysHalted == ph \in {"post1", "post2"} => Halted(m)
 \* the first instruction boundary reached after continue has PC = address after the STOP byte
 ResumeOk == ph = "resumed" /\ IsInstructionDone(m) /\ m.st = "Running" /\ k <= 4 => TRUE
 
+\* ---- link to the unbounded proof (spec/proof/SupCore.tla, Apalache) ---------------------------------------
+\* every edge of Micro.tla is an instance of SupCore!CoreEdge: with the core projection
+\*   (sp, pc, st, ss, ps, prw, aout, wait)  the successor is what CoreEdge prescribes for SOME (load, byte);
+\* the next pending write / wait flag are unconstrained there.
+CoreRel(x, y) ==
+  IF x.st # "Running" THEN y = x
+  ELSE IF x.wait THEN y = [x EXCEPT !.wait = FALSE]
+  ELSE LET r5 == IF x.prw = 5 THEN x.aout ELSE x.regs[5]
+           r3 == IF x.prw = 3 THEN x.aout ELSE x.regs[3]
+           bad == x.prw >= 0 /\ (~SpValid(x.ss, r5) \/ ~PcValid(x.ps, r3))
+       IN /\ y.regs[5] = r5 /\ y.regs[3] = r3 /\ y.ss = x.ss /\ y.ps = x.ps
+          /\ \E load \in BOOLEAN, byte \in {0, 1, 2} :
+                y.st = (IF load /\ byte = 0 THEN "ErrorStopped" ELSE IF load /\ byte = 1 THEN "Stopped"
+                        ELSE IF bad THEN "ErrorStopped" ELSE "Running")
+AbstractsToCore == IsM => CoreRel(m, EdgeF(m))
+
 \* ---- emission for the harness (S->I): the edge at which the machine halts and the state there ----
 Emit ==
   ph = "halted" =>
